@@ -208,6 +208,14 @@ where
     pub fn nnzL(&self) -> usize {
         self.L.nnz()
     }
+
+    /// (verification hook) the values of the internally held permuted
+    /// matrix, mapped back to the entry order of the input matrix
+    #[cfg(feature = "verif")]
+    pub fn verif_values(&self) -> Vec<T> {
+        let nzval = &self.workspace.triuA.nzval;
+        self.workspace.AtoPAPt.iter().map(|&i| nzval[i]).collect()
+    }
 }
 
 fn check_structure<T: FloatT>(A: &CscMatrix<T>) -> Result<(), QDLDLError> {
